@@ -16,11 +16,15 @@ RULE = (
     "focus) carry every assignment of {no condition, =V, ~comparison, ~range/modulo} with at least one "
     "condition: delivered events must equal the unconstrained RSS events filtered by 'every constrained "
     "capture present in the event satisfies the reference predicate'; with an overriding probe on the same "
-    "selector a plain probe must see the override on exactly those bindings. non-trivial = distinct "
+    "selector a plain probe must see the override on exactly those bindings; (c) focus-free (total) chain and "
+    "sibling selectors with one constrained capture: a record is delivered iff every value of the constrained "
+    "variable in it satisfies the predicate; (d) the predicate attached to a call, r(ctx, s() as r1 ~ pred, "
+    "t(!v)), filters on the call's return value; (e) throttle(1..5) on every value sequence of length 3 over "
+    "[-2,8]: asked twice in a row about one value it answers the same. non-trivial = distinct "
     "(tree, selector) pairs where the filter both passed and rejected at least one event, plus box points"
 )
 ASSUMPTIONS = [
-    "throttle is stateful and has no arithmetic meaning in the property: not decided",
+    "throttle is stateful and has no arithmetic meaning in the property: only the stability of its verdict (asked twice in a row about one value) is decided",
     "reference predicates are written from the property text (pv/props/c12.py ref_*)",
 ]
 BOUNDS = {"quick": {"box": "[-6,6]^4", "tree_nodes": 4, "chain_depth": 2}, "thorough": {"box": "[-10,10]^4", "tree_nodes": 4, "chain_depth": 3, "constrained_aliases_at_depth_3": 2}}
@@ -187,7 +191,170 @@ def units(tier):
     hi = 6 if tier == "quick" else 10
     out = [("sels", lo, min(n, lo + chunk)) for lo in range(0, n, chunk)]
     out += [("box", -hi, hi, (m,)) for m in range(-hi, hi + 1) if m != 0] + [("box-simple", -hi, hi)]
+    nt = len(total_selectors())
+    out += [("total", lo, min(nt, lo + chunk)) for lo in range(0, nt, chunk)]
+    nc = len(call_level_selectors())
+    out += [("call-level", lo, min(nc, lo + chunk)) for lo in range(0, nc, chunk)]
+    out.append(("throttle",))
     return out
+
+
+def total_selectors():
+    """Focus-free chains (total records) with one alias constrained: a record is delivered iff every
+    value the constrained variable took in it satisfies the condition."""
+    out = []
+    for base in list(E.chain_selectors(2, focus=False)) + list(E.sibling_selectors(focus=False)):
+        for a in R.all_aliases(base):
+            for c in CONDS:
+                out.append((base, {a: c}))
+    return out
+
+
+def call_level_selectors():
+    """r(ctx, s1() as r1 ~ pred, s2(!v)): the predicate is attached to the call (its return value)."""
+    out = []
+    for base in E.value_selectors():
+        if len(base.children) == 2:
+            for c in CONDS:
+                out.append((base, c))
+    return out
+
+
+def check_total(base, assign, trees, part):
+    from ptera import probing, tools
+    from pv.props.c07 import split_records
+
+    tw = E.tree_world()
+    sel = with_conditions(base, assign)
+    text = R.render(sel)
+    env = dict(tw.funcs)
+    env.update({k: getattr(tools, k) for k in ("lt", "gt", "lte", "gte", "every", "between")})
+    tr = tw.ns["TRACE"]
+    try:
+        p = probing(text, env=env, raw=True)
+        p.subscribe(lambda ev: tr.append(("record", {k: list(c.values) for k, c in ev.items()})))
+        p.__enter__()
+    except BaseException as e:
+        world.reset_context()
+        E.reset_tree_world()
+        part["violations"].append(violation(PROP, "activation", {"selector": text, "mode": "total"}, f"{type(e).__name__}: {e}", tags=["activation"]))
+        return
+    try:
+        for tree in trees:
+            try:
+                raw = tw.run(tree)
+            except BaseException as e:
+                part["violations"].append(violation(PROP, "call-failed", {"selector": text, "mode": "total", "tree_repr": repr(tree)},
+                                                    f"{CT.describe(tree)}: {type(e).__name__}: {e}", tags=["call-failed"]))
+                continue
+            trace, by_exit, stray = split_records(raw)
+            part["cases"] += 1
+            part["evaluations"] += 1
+            part["steps"] += len(trace)
+            allrec = R.total(trace, base)
+            keep = {aid: [rec] for t, aid, rec in allrec
+                    if all(all(ref_cond(cond, v) for v in rec[a]) for a, cond in assign.items() if a in rec)}
+            if keep and len(keep) < len(allrec):
+                part["nontrivial"] += 1
+            part["outcomes"][f"total:kept={min(len(keep), 3)}:dropped={min(len(allrec) - len(keep), 3)}"] += 1
+            if stray or keep != by_exit:
+                part["violations"].append(violation(
+                    PROP, "wrong-total-filter", {"selector": text, "mode": "total", "tree_repr": repr(tree)},
+                    f"{text} on {CT.describe(tree)}: unconstrained records {[r for _, _, r in allrec]!r}; expected per root exit "
+                    f"{keep!r} (every value of the constrained variable satisfies the condition); delivered {by_exit!r} {stray!r}",
+                    tags=["wrong-filter"]))
+    finally:
+        try:
+            p.__exit__(None, None, None)
+        except BaseException as e:
+            part["violations"].append(violation(PROP, "deactivation", {"selector": text, "mode": "total"}, f"{type(e).__name__}: {e}", tags=["deactivation"]))
+    E.ensure_clean(tw)
+
+
+def _cond_text(cond):
+    return f"= {cond[1]}" if cond[0] == "=" else f"~ {cond[1]}({', '.join(str(a) for a in cond[2])})"
+
+
+def check_call_level(base, cond, trees, part):
+    from ptera import probing, tools
+
+    tw = E.tree_world()
+    plain_text = R.render(base)
+    vchild = [c for c in base.children if c.caps and c.caps[0].var == "#value"][0]
+    piece = f"{vchild.label}() as r1"
+    if plain_text.count(piece) != 1:
+        part["harness_errors"].append(f"call-level spelling: {piece!r} not found once in {plain_text!r}")
+        return
+    text = plain_text.replace(piece, f"{piece} {_cond_text(cond)}")
+    falias = [c for c in R.focus_path(base)[-1].caps if c.focus][0].alias
+    env = dict(tw.funcs)
+    env.update({k: getattr(tools, k) for k in ("lt", "gt", "lte", "gte", "every", "between")})
+    events = []
+    try:
+        p = probing(text, env=env)
+        p.subscribe(lambda ev: events.append({k: v for k, v in ev.items() if k != "#value"}))
+        p.__enter__()
+    except BaseException as e:
+        world.reset_context()
+        E.reset_tree_world()
+        part["violations"].append(violation(PROP, "activation", {"selector": text, "mode": "call-level"}, f"{type(e).__name__}: {e}", tags=["activation"]))
+        return
+    try:
+        for tree in trees:
+            del events[:]
+            try:
+                trace = tw.run(tree)
+            except BaseException as e:
+                part["violations"].append(violation(PROP, "call-failed", {"selector": text, "mode": "call-level", "tree_repr": repr(tree)},
+                                                    f"{CT.describe(tree)}: {type(e).__name__}: {e}", tags=["call-failed"]))
+                continue
+            unconstrained = R.immediate(trace, base)
+            kept = [(t, aid, ev) for t, aid, ev in unconstrained if "r1" not in ev or ref_cond(cond, ev["r1"])]
+            part["cases"] += 1
+            part["evaluations"] += 1
+            part["steps"] += len(trace)
+            if kept and len(kept) < len(unconstrained):
+                part["nontrivial"] += 1
+            part["outcomes"][f"call-level:kept={min(len(kept), 3)}:dropped={min(len(unconstrained) - len(kept), 3)}"] += 1
+            want = [sorted(map(E.canon, [e for (_, _, e) in g])) for _, g in itertools.groupby(kept, key=lambda r: (r[0], r[1]))]
+            have = [sorted(map(E.canon, g)) for g in E.group_by_focus(list(events), falias)]
+            if want != have:
+                part["violations"].append(violation(
+                    PROP, "wrong-filter", {"selector": text, "mode": "call-level", "tree_repr": repr(tree)},
+                    f"{text} on {CT.describe(tree)}: unconstrained events {[e for _, _, e in unconstrained]!r}; expected after "
+                    f"filtering on the call's return value {[e for _, _, e in kept]!r}; delivered {list(events)!r}", tags=["wrong-filter"]))
+    finally:
+        try:
+            p.__exit__(None, None, None)
+        except BaseException as e:
+            part["violations"].append(violation(PROP, "deactivation", {"selector": text, "mode": "call-level"}, f"{type(e).__name__}: {e}", tags=["deactivation"]))
+    E.ensure_clean(tw)
+
+
+def check_throttle(part):
+    """throttle is stateful and the property gives it no arithmetic meaning; what is decided here is only
+    that its verdict on a value is stable: asked again about the value it has just been asked about (a
+    constrained context variable is re-checked at every binding of the focus), it answers the same."""
+    from ptera import tools
+
+    for period in range(1, 6):
+        for seq in itertools.product(range(-2, 9), repeat=3):
+            part["cases"] += 1
+            part["evaluations"] += 1
+            part["steps"] += 6
+            th = tools.throttle(period)
+            for i, v in enumerate(seq):
+                first = bool(th(v))
+                again = bool(th(v))
+                part["outcomes"][f"throttle:{first}"] += 1
+                if first != again:
+                    part["violations"].append(violation(
+                        PROP, "predicate-throttle", {"pred": "throttle", "args": [period], "v": list(seq[:i + 1])},
+                        f"throttle({period}) asked about {list(seq[:i + 1])!r}: {v} was {'accepted' if first else 'refused'}, "
+                        f"and {'accepted' if again else 'refused'} when asked again immediately", tags=["box"]))
+                    break
+            else:
+                part["nontrivial"] += 1
 
 
 _TREES = {}
@@ -313,6 +480,14 @@ def work(unit, tier):
         part["samples"].append({"box": f"every/between with modulo {unit[3]} over [{unit[1]},{unit[2]}]"})
     elif unit[0] == "box-simple":
         check_box_simple(unit[1], unit[2], part)
+    elif unit[0] == "throttle":
+        check_throttle(part)
+    elif unit[0] == "total":
+        for base, assign in total_selectors()[unit[1]:unit[2]]:
+            check_total(base, assign, tree_list(tier), part)
+    elif unit[0] == "call-level":
+        for base, cond in call_level_selectors()[unit[1]:unit[2]]:
+            check_call_level(base, cond, tree_list(tier), part)
     else:
         _, lo, hi = unit
         for base, assign in selectors(tier)[lo:hi]:
@@ -324,6 +499,26 @@ def work(unit, tier):
 
 def replay(case):
     part = new_partial()
+    if case.get("pred") == "throttle":
+        check_throttle(part)
+        bad = [v for v in part["violations"] if v["case"] == case]
+        return (True, bad[0]["detail"]) if bad else (False, "the verdict is stable")
+    if case.get("mode") == "total":
+        tree = eval(case["tree_repr"]) if "tree_repr" in case else None
+        for base, assign in total_selectors():
+            if R.render(with_conditions(base, assign)) == case["selector"]:
+                check_total(base, assign, [tree] if tree else tree_list("quick"), part)
+                return (True, part["violations"][0]["detail"]) if part["violations"] else (False, "records filtered as stated")
+        return False, "selector not in the enumerated space"
+    if case.get("mode") == "call-level":
+        tree = eval(case["tree_repr"]) if "tree_repr" in case else None
+        for base, cond in call_level_selectors():
+            check_call_level(base, cond, [tree] if tree else tree_list("quick"), part)
+            bad = [v for v in part["violations"] if v["case"]["selector"] == case["selector"]]
+            if bad:
+                return True, bad[0]["detail"]
+            part = new_partial()
+        return False, "events filtered as stated"
     if "pred" in case:
         hi = 10
         check_box(-hi, hi, part, [m for m in range(-hi, hi + 1) if m != 0])
